@@ -295,11 +295,11 @@ func (ip *Inode) Read(atxn *alloctxn.AllocTxn, offset uint64, bytesToRead uint64
 		byteoff := off % disk.BlockSize
 		nbytes := util.Min(disk.BlockSize-byteoff, count-n)
 		blkno, alloc := ip.bmap(atxn, boff)
+		if alloc { // fill in a hole (or, out of space, only its index block)
+			ip.WriteInode(atxn)
+		}
 		if blkno == common.NULLBNUM {
 			break
-		}
-		if alloc { // fill in a hole
-			ip.WriteInode(atxn)
 		}
 		buf := atxn.ReadBlock(blkno)
 
